@@ -269,10 +269,28 @@ def run(chk, repo, tier):
     sides = cmp_atoms(c)
     mentions = sides and {nf.vkey(x) for x in sides[0][2]} == {nf.vkey(fft_shape), nf.vkey(nf.attr(S('scratch'), 'shape'))}
     if acc is None or not mentions:
+        # a guard on one number per array (`min(scratch.shape) < max(fft_shape)`) instead of axis by axis: with two different
+        # reductions the buffer scratch_shape() advertises for a non-square grid is refused
+        REDS = ('min', 'max', 'amin', 'amax')
+        ca = c.single_atom() if isinstance(c, Poly) else None
+        if ca is not None and is_app(ca, ('lt', 'le')) and len(ca[2]) == 2:
+            ra, rb = [x.single_atom() if isinstance(x, Poly) else None for x in ca[2]]
+            if ra is not None and rb is not None and is_app(ra, REDS) and is_app(rb, REDS) and \
+                    {nf.vkey(nf.strip_apps(ra[2][0], ('asarray', 'array', 'cast'))), nf.vkey(nf.strip_apps(rb[2][0], ('asarray', 'array', 'cast')))} == \
+                    {nf.vkey(fft_shape), nf.vkey(nf.attr(S('scratch'), 'shape'))}:
+                kind = lambda a_: 'min' if a_[1] in ('min', 'amin') else 'max'
+                differ = kind(ra) != kind(rb)
+                chk.ob('C09-c', 'T-comparison', f.key, 'scratch guard accepts a buffer of exactly fft_shape', False if differ else None,
+                       f'guard `{fmt(c)[-100:]}` compares {kind(ra)} of one shape with {kind(rb)} of the other: for a non-square FFT grid '
+                       'the buffer of exactly that shape is refused' if differ else 'undecided: the guard compares one number per shape',
+                       f.loc(node))
+                acc = 'done'
+    if acc is None or (not mentions and acc != 'done'):
         raise AnalysisError(f'propagate_fft: scratch guard not understood: {fmt(c)[-200:]}')
-    chk.ob('C09-c', 'T-comparison', f.key, 'scratch guard accepts a buffer of exactly fft_shape', acc,
-           f'guard `{"" if pol else "not "}{fmt(c)[-120:]}` ' + ('accepts' if acc else 'refuses') +
-           ' scratch.shape == fft_shape, which is what scratch_shape() advertises', f.loc(node))
+    if acc != 'done':
+        chk.ob('C09-c', 'T-comparison', f.key, 'scratch guard accepts a buffer of exactly fft_shape', acc,
+               f'guard `{"" if pol else "not "}{fmt(c)[-120:]}` ' + ('accepts' if acc else 'refuses') +
+               ' scratch.shape == fft_shape, which is what scratch_shape() advertises', f.loc(node))
     fss, sp, _ = analyse(repo, 'propagate.scratch_shape')
     oks = False
     for p in returns(sp):
